@@ -236,8 +236,24 @@ func (c *vhFrameConn) SetWriteDeadline(t time.Time) error {
 	return nil
 }
 
+// vhTrace: a TraceWriter that discards (tracing enabled on the connection).
+type vhDiscard struct{ n int }
+
+func (d *vhDiscard) Write(p []byte) (int, error) { d.n += len(p); return len(p), nil }
+
+type vhTrace struct {
+	sw io.Writer
+	rw io.Writer
+}
+
+func (t *vhTrace) SendWriter() *io.Writer    { return &t.sw }
+func (t *vhTrace) ReceiveWriter() *io.Writer { return &t.rw }
+
 func vhNewTCP(conn net.Conn, limit int64) *tcpTransport {
 	t := &tcpTransport{TCPConfig: TCPConfig{ReadLimit: limit}}
+	if vParam("trace", 0) == 1 {
+		t.TraceWriter = &vhTrace{sw: &vhDiscard{}, rw: &vhDiscard{}}
+	}
 	t.setConn(conn)
 	t.encryption = SessionEncryptionNone
 	return t
@@ -399,8 +415,14 @@ func HarnessC16Budget() {
 	t := vhNewTCP(conn, int64(limit))
 	// optional predecessors within the limit (they create arbitrary read-ahead)
 	npre := nondetRange("predecessors", 0, vParam("pre", 1))
+	preBad := make([]bool, npre)
 	for i := 0; i < npre; i++ {
 		b, _ := json.Marshal(vhWireEnvelope(0, vhIDs[i]))
+		if nondetBool("pre.not-an-envelope") {
+			// well-formed JSON that is no envelope: the receive fails, the connection goes on
+			preBad[i] = true
+			b = vJSONText(`{"id":"x"}`)
+		}
 		s := nondetInt("presize")
 		vAssume(s >= 128)
 		vAssume(s <= limit)
@@ -419,6 +441,13 @@ func HarnessC16Budget() {
 		before := conn.consumed
 		_, err := t.Receive(context.Background())
 		vAssert(conn.consumed-before <= limit, "c16:no-receive-consumes-more-than-the-limit")
+		if preBad[i] {
+			vAssert(err != nil, "c16:non-envelope-json-is-rejected")
+			if conn.cut || conn.timeouts >= conn.maxTimeouts {
+				return
+			}
+			continue
+		}
 		if err != nil {
 			// a fault (cut, exhausted stalls) ended the connection
 			vAssert(conn.cut || conn.timeouts >= conn.maxTimeouts, "c16:envelope-within-limit-is-accepted")
